@@ -43,6 +43,10 @@ def obligations(tier, ctx):
         for what in (0, 1, 2, 3):
             obs.append(Ob(name=f"ctorjson{which}_{what}", params=[("i", "int"), ("p", "int"), ("s", "int")], pre=["0 <= i <= 8", "0 <= p <= 5", "0 <= s <= 6"],
                           call=f"H.ctor_json({which}, {what}, i, p, s)", backend="P", timeout=300, family="constructors, JSON text on the corpus (Pydantic + real encoder)"))
+    for which in (0, 1):
+        for what in (0, 1, 2, 3):
+            obs.append(Ob(name=f"ctorjsonval{which}_{what}", params=[("i", "int"), ("v", "int")], pre=["0 <= i <= 8", "0 <= v <= 7"],
+                          call=f"H.ctor_json_val({which}, {what}, i, v)", backend="P", timeout=300, family="constructors, numeric/nested corpus through the real encoder (Pydantic)"))
     for n in discover(ctx):
         obs.append(Ob(name="helper_" + n, params=[("x", "int")], pre=["x == 0"], call=f"H.helper_wire({n!r})", backend="P", timeout=120, family="typed request helpers"))
     for n in names(ctx, "list(H.NOTIFIERS)"):
